@@ -144,6 +144,7 @@ func (c *checker) add(fp, what string, atomID string, replay map[string]interfac
 
 // rawFail is a failure of one atom before attribution.
 type rawFail struct {
+	action string
 	a      *atom
 	phase  string // compile | method | signal | property
 	fail   string // reason category / failure kind
@@ -172,14 +173,14 @@ func (c *checker) verdictAlone(a *atom) (ok bool) {
 		return false
 	}
 	if r.failure != "" {
-		c.raw = append(c.raw, rawFail{a, "compile", reasonCategory(r.failure, r.msg),
+		c.raw = append(c.raw, rawFail{"", a, "compile", reasonCategory(r.failure, r.msg),
 			fmt.Sprintf("the generator fails on a package accepted by the IDL parser (%s): %s; atom class %s", r.failure, r.msg, a.class),
 			map[string]interface{}{"idl": idlText, "failure": r.failure, "message": r.msg, "class": a.class}})
 		return false
 	}
 	errs := typeCheck(c.imp, map[string][]byte{"gen.go": r.src})
 	if len(errs) > 0 {
-		c.raw = append(c.raw, rawFail{a, "compile", reasonCategory("type-error", errs[0]),
+		c.raw = append(c.raw, rawFail{"", a, "compile", reasonCategory("type-error", errs[0]),
 			fmt.Sprintf("the generated code does not compile: %s (%d errors); atom class %s", errs[0], len(errs), a.class),
 			map[string]interface{}{"idl": idlText, "failure": "type-error", "errors": errs, "class": a.class}})
 		return false
@@ -196,7 +197,7 @@ func crashLike(fail string) bool {
 // member type of a struct, that fails the same way on its own), or on its
 // constructor when every type built with that constructor fails the same way;
 // otherwise on itself. Hygiene atoms keep their hygiene category.
-func attribute(raw []rawFail, atoms []*atom) []string {
+func attribute(raw []rawFail, atoms []*atom, driven map[string]int) []string {
 	failing := map[string]map[string]bool{} // key -> own class of failing type atoms
 	partsOf := map[string][]string{}
 	for _, a := range atoms {
@@ -237,8 +238,39 @@ func attribute(raw []rawFail, atoms []*atom) []string {
 			}
 		}
 	}
+	// every driven action of a kind fails the same way: one class "*"
+	allOfKind := map[string]bool{}
+	{
+		nKind := map[string]int{}
+		for _, a := range atoms {
+			for _, ac := range a.actions {
+				nKind[ac.kind]++
+			}
+		}
+		nFail := map[string]map[string]bool{}
+		for _, r := range raw {
+			if r.phase == "compile" {
+				continue
+			}
+			if nFail[r.key()] == nil {
+				nFail[r.key()] = map[string]bool{}
+			}
+			nFail[r.key()][r.a.id+"/"+r.action] = true
+		}
+		for k, set := range nFail {
+			kind := strings.Split(k, "|")[0]
+			if driven[kind] >= 5 && len(set) >= driven[kind] {
+				allOfKind[k] = true
+			}
+		}
+		_ = nKind
+	}
 	out := make([]string, len(raw))
 	for i, r := range raw {
+		if allOfKind[r.key()] {
+			out[i] = "*"
+			continue
+		}
 		if r.a.hygiene {
 			out[i] = classOf(r.a)
 			continue
@@ -393,11 +425,12 @@ type drvResult struct {
 }
 
 type runOut struct {
-	results []drv.Result
-	crashed string // key of the action that was running when the driver died
-	stderr  string
-	fatal   string
-	timeout bool
+	results  []drv.Result
+	crashed  string // key of the action that was running when the driver died
+	stderr   string
+	fatal    string
+	timeout  bool
+	deadline bool
 }
 
 func (c *checker) runDriver(bin, dir string, args []string, limit time.Duration) runOut {
@@ -435,6 +468,9 @@ func (c *checker) runDriver(bin, dir string, args []string, limit time.Duration)
 				last = r.Begin
 			case r.Done != "":
 				finished = true
+				if r.Done == "deadline" {
+					out.deadline = true
+				}
 			case r.Fatal != "":
 				out.fatal = r.Fatal
 			default:
@@ -660,9 +696,20 @@ func main() {
 	var observations []obs
 	cases, checks, driven := 0, 0, 0
 	drivenClasses := map[string]bool{}
+	drivenKind := map[string]int{}
 	var samples []interface{}
 	notDriven := 0
-	limit := 4 * time.Minute
+	driveBudget := 60 * time.Second
+	if tier == "thorough" {
+		driveBudget = 11 * time.Minute
+	}
+	deadline := start.Add(driveBudget)
+	const shards = 4
+	var omu sync.Mutex
+	var dwg sync.WaitGroup
+	dsem := make(chan struct{}, 16)
+	expected := 0
+	deadlineHit := false
 	for i, b := range builts {
 		if buildErr[i] != "" {
 			c.add("compile/go-build-fails-after-type-check/"+fmt.Sprintf("package-%d", i),
@@ -671,72 +718,109 @@ func main() {
 			notDriven += len(b.atoms)
 			continue
 		}
-		var skip []string
-		for attempt := 0; attempt < 20; attempt++ {
-			args := []string{}
-			if len(skip) > 0 {
-				args = append(args, "-skip", strings.Join(skip, ","))
-			}
-			ro := c.runDriver(b.bin, b.dir, args, limit)
-			for _, r := range ro.results {
-				a := atomByID[r.Atom]
-				if a == nil {
-					continue
-				}
-				skip = append(skip, r.Itf+"."+r.Kind+":"+r.IDLName)
-				cases += r.Cases
-				checks += r.Checks
-				driven++
-				if r.Cases > 0 {
-					drivenClasses[r.Kind+"|"+a.class] = true
-				}
-				if r.Sample != "" && len(samples) < 12 && (driven%17 == 1 || len(samples) < 4) {
-					samples = append(samples, map[string]interface{}{"action": r.Kind + " " + r.IDLName, "class": a.class, "case": r.Sample, "cases": r.Cases, "violations": len(r.Violations)})
-				}
-				for _, v := range r.Violations {
-					observations = append(observations, obs{a, r.Kind, r.IDLName, r.Itf, v, b})
-				}
-			}
-			if ro.fatal != "" {
-				chk.EngineError("driver of package %d: %s (stderr: %s)", i, ro.fatal, tailStr(ro.stderr, 300))
-				break
-			}
-			if ro.crashed == "" {
-				break
-			}
-			if ro.crashed == "(outside an action)" {
-				chk.EngineError("driver of package %d died outside an action: %s", i, tailStr(ro.stderr, 500))
-				break
-			}
-			// the driver died (or hung) in an action: record, skip it, resume
-			key := ro.crashed
-			skip = append(skip, key)
-			var a *atom
-			var kind, name string
-			if j := strings.Index(key, "."); j >= 0 {
-				rest := key[j+1:]
-				if k := strings.Index(rest, ":"); k >= 0 {
-					kind, name = rest[:k], rest[k+1:]
-				}
-			}
-			for _, x := range b.atoms {
-				for _, ac := range x.actions {
-					if ac.kind == kind && ac.name == name {
-						a = x
-					}
-				}
-			}
-			if a == nil {
-				chk.EngineError("driver of package %d died in unknown action %s", i, key)
-				break
-			}
-			v := drv.Violation{Failure: "process-crash", Detail: msgClass(firstRepoFrame(ro.stderr), 60),
-				What: fmt.Sprintf("the process died while driving %s: %s", key, panicLine(ro.stderr)), Case: key}
-			if ro.timeout {
-				v = drv.Violation{Failure: "process-hang", Detail: "", What: fmt.Sprintf("the driver did not finish %s within %v", key, limit), Case: key}
-			}
-			observations = append(observations, obs{a, kind, name, key[:strings.Index(key, ".")], v, b})
+		for _, a := range b.atoms {
+			expected += len(a.actions)
 		}
+		for sh := 0; sh < shards; sh++ {
+			dwg.Add(1)
+			go func(i int, b *built, sh int) {
+				defer dwg.Done()
+				dsem <- struct{}{}
+				defer func() { <-dsem }()
+				var skip []string
+				for attempt := 0; attempt < 40; attempt++ {
+					left := time.Until(deadline)
+					if left <= 0 {
+						omu.Lock()
+						deadlineHit = true
+						omu.Unlock()
+						return
+					}
+					args := []string{"-shard", fmt.Sprintf("%d/%d", sh, shards), "-deadline", fmt.Sprint(deadline.Unix())}
+					if len(skip) > 0 {
+						args = append(args, "-skip", strings.Join(skip, ","))
+					}
+					ro := c.runDriver(b.bin, b.dir, args, left+45*time.Second)
+					omu.Lock()
+					for _, r := range ro.results {
+						a := atomByID[r.Atom]
+						if a == nil {
+							continue
+						}
+						skip = append(skip, r.Itf+"."+r.Kind+":"+r.IDLName)
+						cases += r.Cases
+						checks += r.Checks
+						driven++
+						drivenKind[r.Kind]++
+						if r.Cases > 0 {
+							drivenClasses[r.Kind+"|"+a.class] = true
+						}
+						if r.Sample != "" && len(samples) < 12 && (driven%17 == 1 || len(samples) < 4) {
+							samples = append(samples, map[string]interface{}{"action": r.Kind + " " + r.IDLName, "class": a.class, "case": r.Sample, "cases": r.Cases, "violations": len(r.Violations)})
+						}
+						for _, v := range r.Violations {
+							observations = append(observations, obs{a, r.Kind, r.IDLName, r.Itf, v, b})
+						}
+					}
+					if ro.deadline {
+						deadlineHit = true
+					}
+					omu.Unlock()
+					if ro.fatal != "" {
+						omu.Lock()
+						chk.EngineError("driver of package %d: %s (stderr: %s)", i, ro.fatal, tailStr(ro.stderr, 300))
+						omu.Unlock()
+						return
+					}
+					if ro.crashed == "" {
+						return
+					}
+					if ro.crashed == "(outside an action)" {
+						omu.Lock()
+						chk.EngineError("driver of package %d died outside an action: %s", i, tailStr(ro.stderr, 500))
+						omu.Unlock()
+						return
+					}
+					// the driver died (or hung) in an action: record, skip it, resume
+					key := ro.crashed
+					skip = append(skip, key)
+					var a *atom
+					var kind, name string
+					if j := strings.Index(key, "."); j >= 0 {
+						rest := key[j+1:]
+						if k := strings.Index(rest, ":"); k >= 0 {
+							kind, name = rest[:k], rest[k+1:]
+						}
+					}
+					for _, x := range b.atoms {
+						for _, ac := range x.actions {
+							if ac.kind == kind && ac.name == name {
+								a = x
+							}
+						}
+					}
+					omu.Lock()
+					if a == nil {
+						chk.EngineError("driver of package %d died in unknown action %s", i, key)
+						omu.Unlock()
+						return
+					}
+					v := drv.Violation{Failure: "process-crash", Detail: msgClass(firstRepoFrame(ro.stderr), 60),
+						What: fmt.Sprintf("the process died while driving %s: %s", key, panicLine(ro.stderr)), Case: key}
+					if ro.timeout {
+						v = drv.Violation{Failure: "process-hang", Detail: "", What: fmt.Sprintf("the driver did not finish %s in time", key), Case: key}
+					}
+					driven++
+					drivenKind[kind]++
+					observations = append(observations, obs{a, kind, name, key[:strings.Index(key, ".")], v, b})
+					omu.Unlock()
+				}
+			}(i, b, sh)
+		}
+	}
+	dwg.Wait()
+	if driven < expected {
+		notDriven += expected - driven
 	}
 	// ---- 5. attribution: blame the smallest failing component
 	for i := range observations {
@@ -745,10 +829,10 @@ func main() {
 		if o.v.Failure == "panic" && o.v.Detail != "" {
 			fail += ":" + o.v.Detail
 		}
-		c.raw = append(c.raw, rawFail{a: o.a, phase: o.kind, fail: fail, what: o.v.What})
+		c.raw = append(c.raw, rawFail{a: o.a, phase: o.kind, fail: fail, what: o.v.What, action: o.idlName})
 	}
 	nCompile := len(c.raw) - len(observations)
-	classes := attribute(c.raw, atoms)
+	classes := attribute(c.raw, atoms, drivenKind)
 	for i, r := range c.raw[:nCompile] {
 		c.add(fmt.Sprintf("compile/%s/%s", r.fail, classes[i]), r.what, r.a.id, r.replay)
 	}
@@ -779,31 +863,52 @@ func main() {
 	var nondeterministic []string
 	confirmedFP := map[string]bool{}
 	sort.Strings(rorder)
-	for _, fp := range rorder {
+	type confRes struct {
+		same   int
+		others []string
+	}
+	cres := make([]confRes, len(rorder))
+	var cwg sync.WaitGroup
+	var cmu sync.Mutex
+	for i, fp := range rorder {
+		o := rf[fp].obs[0]
+		key := o.itf + "." + o.kind + ":" + o.idlName
+		for r := 0; r < 5; r++ {
+			cwg.Add(1)
+			go func(i int, o obs, key string) {
+				defer cwg.Done()
+				dsem <- struct{}{}
+				defer func() { <-dsem }()
+				ro := c.runDriver(o.b.bin, o.b.dir, []string{"-only", key}, 3*time.Minute)
+				hit := false
+				var others []string
+				for _, res := range ro.results {
+					for _, v := range res.Violations {
+						if v.Failure == o.v.Failure && (v.Failure != "panic" || v.Detail == o.v.Detail) {
+							hit = true
+						} else {
+							others = append(others, v.Failure+":"+v.Detail)
+						}
+					}
+				}
+				if ro.crashed != "" && (o.v.Failure == "process-crash" || o.v.Failure == "process-hang") {
+					hit = true
+				}
+				cmu.Lock()
+				if hit {
+					cres[i].same++
+				}
+				cres[i].others = append(cres[i].others, others...)
+				cmu.Unlock()
+			}(i, o, key)
+		}
+	}
+	cwg.Wait()
+	for i, fp := range rorder {
 		f := rf[fp]
 		o := f.obs[0]
 		key := o.itf + "." + o.kind + ":" + o.idlName
-		same := 0
-		var others []string
-		for r := 0; r < 5; r++ {
-			ro := c.runDriver(o.b.bin, o.b.dir, []string{"-only", key}, 3*time.Minute)
-			hit := false
-			for _, res := range ro.results {
-				for _, v := range res.Violations {
-					if v.Failure == o.v.Failure && (v.Failure != "panic" || v.Detail == o.v.Detail) {
-						hit = true
-					} else {
-						others = append(others, v.Failure+":"+v.Detail)
-					}
-				}
-			}
-			if ro.crashed != "" && (o.v.Failure == "process-crash" || o.v.Failure == "process-hang") {
-				hit = true
-			}
-			if hit {
-				same++
-			}
-		}
+		same, others := cres[i].same, cres[i].others
 		if same != 5 {
 			unconfirmed = append(unconfirmed, unconf{fp, key, same, uniqStr(others), o.a})
 			continue
@@ -847,7 +952,7 @@ func main() {
 	}
 	// ---- evidence
 	total := len(atoms)
-	exhaustive := notDriven == 0
+	exhaustive := notDriven == 0 && !deadlineHit
 	cov := map[string]interface{}{
 		"evaluations":         cases + total,
 		"distinct_nontrivial": len(drivenClasses),
@@ -867,7 +972,9 @@ func main() {
 		"value_cases":                           cases,
 		"oracle_checks":                         checks,
 		"types_in_universe":                     len(typeUniverse(map[string]int{"quick": 1, "thorough": 2}[tier])),
-		"atoms_not_driven":                      notDriven,
+		"actions_not_driven":                    notDriven,
+		"deadline_hit":                          deadlineHit,
+		"actions_expected":                      expected,
 		"generate_and_build_seconds":            buildS,
 		"run_time_fingerprints":                 rorder,
 		"nondeterministic_crashes_not_reported": nondeterministic,
